@@ -19,8 +19,9 @@ RULE = (
     "position of the object: index out of range on read or write (any axis, i >= extent, i < -extent, and "
     "-extent <= i < 0 for arrays of static items), whole-array update of wrong length, of a different shape with the "
     "same length, string longer than the capacity fixed at creation, same-length list whose items need more space, "
-    "union reference given a non-member object / a dict / a wrong type name, construction into a buffer of another "
-    "context, construction at an explicit offset without buffer. Oracle: the operation raises AND every previously "
+    "union reference given a non-member object / a dict / a wrong type name, a sequence handed to a scalar slot, a whole-struct "
+    "update with an unknown field / from an object of another size, construction into a buffer of another "
+    "context (with and without an explicit integer offset), construction at an explicit offset without buffer. Oracle: the operation raises AND every previously "
     "live object reads back the same value AND no byte inside any extent that was live before changes. For "
     "-extent <= i < 0 on arrays of dynamic items 'raises' or 'behaves as i+extent' are both accepted. Non-trivial = the "
     "misuse was applicable and the target has a live neighbour within 8 bytes behind its extent; distinct = distinct case JSON."
